@@ -573,8 +573,17 @@ class SVG:
         self._resolve_use(clip_path_el)
 
         transform = _element_transform(clip_path_el, transform)
+        # clip-rule is inherited: children without their own take it from the
+        # clipPath element or its ancestors
+        inherited = {}
+        for ancestor in itertools.chain((clip_path_el,), clip_path_el.iterancestors()):
+            if "clip-rule" in ancestor.attrib:
+                inherited["clip-rule"] = ancestor.attrib["clip-rule"]
+                break
         clip_paths = [
-            from_element(e).apply_transform(_element_transform(e, transform))
+            from_element(e, **inherited).apply_transform(
+                _element_transform(e, transform)
+            )
             for e in clip_path_el
         ]
 
